@@ -180,6 +180,26 @@ def first_command_fail(op, impl, conf):
     return None
 
 
+def http_fail(op, impl, conf):
+    """Direct size oracle for HTTP publishes (no model): an accepted /pub body is within
+    max-msg-size, an accepted /mpub body within max-body-size."""
+    w = op.split()
+    if len(w) != 8 or w[0] != "http" or w[2] != "POST":
+        return None
+    f = dict(x.split("=", 1) for x in impl.split() if "=" in x)
+    if f.get("H") != "200":
+        return None
+    path, query, cl, body = unhex(w[3]), unhex(w[4]), int(w[5]), unhex(w[6])
+    if path == b"/pub" and not 1 <= len(body) <= conf["maxMsg"]:
+        return "http-pub-size", "/pub accepted a body of %d bytes (max-msg-size %d)" % (len(body), conf["maxMsg"])
+    if path == b"/mpub" and len(body) > conf["maxBody"]:
+        if cl == -1 and b"binary=" in query:
+            return "mpub-chunked-size", "chunked binary /mpub accepted a body of %d bytes (max-body-size %d)" % (
+                len(body), conf["maxBody"])
+        return "http-mpub-size", "/mpub accepted a body of %d bytes (max-body-size %d)" % (len(body), conf["maxBody"])
+    return None
+
+
 def harness_lines(ctx, out, label):
     hist = {}
     for l in out.splitlines():
@@ -213,8 +233,10 @@ def compare(ctx, name, ops, impl, model, corr_broken, props_for_io=True):
             conf = confs.get(w[1])
             if conf:
                 bad = limits_fail(a, conf)
-                if not bad and w[0] == "io":
+                if not bad and w[0] == "io" and ctx.prop == "C09":
                     bad = first_command_fail(o, a, conf)
+                if not bad and w[0] == "http" and ctx.prop == "C10":
+                    bad = http_fail(o, a, conf)
                 if bad:
                     ctx.violation(bad[0], bad[1] + " (conf %s)" % w[1],
                                   "%s\n%s\n# impl: %s\n# model: %s\n" % (ops_conf_line(ops, w[1]), o, a, b))
